@@ -26,6 +26,16 @@ CHECKS["C15"] = dict(
     design="5/C15",
 )
 
+CHECKS["C12"] = dict(
+    technique="bounded-exhaustive and Hypothesis-generated (pattern, source) pairs against an independent reference matcher with backtracking list semantics (cross-checked by an re translation)",
+    text="Every quantifier list up to the length bound over every element sequence up to its bound in three list contexts is matched by "
+         "match_template and by the reference; patterns derived from corpus sources (wildcards, repeats, quantifiers, identifier wildcards, "
+         "sequences, near misses, self patterns) are searched by finditer and the reported nodes compared with the reference occurrences; "
+         "template objects (types, tuples, sets, typed wildcards) against documented semantics.",
+    note="The reference matcher imports nothing from pyrefact; ASCII sources; quantifiers only in the list contexts the docs/tests establish; one name with two different quantifiers is rejected by compile_template and excluded.",
+    design="5/C12",
+)
+
 NOT_YET = {}
 
 
